@@ -29,6 +29,9 @@ func main() {
 	case "mig":
 		// harness mig <tier> <seed> <workdir> <govalid> <repo>
 		migMain(os.Args[2:])
+	case "cel":
+		// harness cel <tier> <seed> <workdir> <govalid> <repo> [n]
+		celMain(os.Args[2:])
 	case "iso":
 		// harness iso <tier> <seed> <workdir> <govalid> <repo> [<govalid -race>]
 		isoMain(os.Args[2:])
